@@ -5,7 +5,7 @@ RULE = ("mode 1: field sets (1..12 fields, keys from the daemon's vocabulary and
         "carriage returns, backslashes, backslash-n text, colons, leading / trailing blanks, empty, 0..300 bytes, every byte "
         "value) with and without a payload (0..5000 bytes, including bytes that look like headers) are written by the real "
         "ControlServer::Impl::send_response and read back by the real client parse_response over a socketpair; mode 2: the "
-        "client reader on arbitrary / truncated bytes; mode 5: a real Node with 0..40 stored chunks answers LIST through the "
+        "client reader on arbitrary / truncated bytes; mode 5: a real Node with 0..40 stored chunks (some of them in the last second of their lifetime, or just past it) answers LIST through the "
         "real handler and the answer is read by the real client and split the way `eph list` does. Oracle (independent of "
         "the model): the client must end up with exactly the fields, success flag and payload handed to send_response, and "
         "LIST must show exactly as many entries as the node holds. non-trivial = a value containing LF / CR / backslash or a "
@@ -66,6 +66,9 @@ def generate(rng, tier):
         cases.append({"ints": [2] + lp(raw), "tag": "client-raw"})
     for k in [0, 1, 2, 3, 10, 40] + ([300] if tier != "quick" else []):
         cases.append({"ints": [5, 0, k], "tag": "list"})
+    # chunks in their last second (remaining TTL shows as 0 s), just expired, and well alive
+    for k, k2, adv in [(2, 1, 29500), (0, 3, 29999), (1, 2, 29001), (3, 2, 30000), (2, 2, 30001), (1, 1, 15000), (0, 1, 29000), (0, 2, 1)]:
+        cases.append({"ints": [5, 0, k, k2, adv], "tag": "list-last-second"})
     return cases
 
 
@@ -98,9 +101,12 @@ def judge(case, impl, model):
         return {"nontrivial": nontrivial}
     if mode == 5:
         k = ints[2]
+        k2 = ints[3] if len(ints) > 3 else 0
+        adv = ints[4] if len(ints) > 4 else 0
         okf, count, lines, held = impl
-        res = {"corr": True, "nontrivial": k >= 2}
-        if not okf or count != held or lines != held or held != k + 1:
+        live = k + 1 + (k2 if adv < 30000 else 0)   # a chunk is live strictly before its deadline (C01)
+        res = {"corr": True, "nontrivial": k + k2 >= 2}
+        if not okf or count != live or lines != live or held != live:
             res["fail"] = "C29|list-does-not-show-every-chunk"
         return res
     return {"nontrivial": False}
